@@ -13,10 +13,12 @@ CONFIG = {
         "data-race freedom of the lock table is a Go-memory-model property: judged by the race detector (a -race build of the stress pass and of the commenter/header-writer runs, in both tiers), not by a theorem (partial)",
         "kernel semantics assumed by the descriptor-number model: flock(2) belongs to the open file description, LOCK_UN acts on whatever description the number names at the time of the call, open(2) hands out a number that is free in the process",
         "translator facts lockClose / appendCallers (go/cmd/extract/gen_lock.go) recognise the statement shapes listed in docs/asbuilt/C14.md; any other shape is reported as unknown:<why> and fails source_unlock_before_close / source_append_callers_no_bypass (conservative); a caller that propagates the error is not followed further up its own callers",
+        "translator fact appendIndex: intra-procedural data flow (assignments, field stores, named results, return statements) from AppendRecord's first result to the caller's result; a caller that drops the index counts as reporting none only if it handles no other ptttype.SortIdx value; what the caller's own callers do with the reported index (NewPost, bbs.CreateArticle pass the summary on) is not followed",
         "a header writer's success is observed as the author line in the article (ptt.WriteFile drops writeHeader's error; the line is written only after the .post append returned nil)",
     ],
     "modelled": ["cmsys.AppendRecord incl. its error returns under the lock", "cmsys.GoFlock/GoFlockExNb/GoFunlock incl. the refused-lock path", "cmsys.lockFD/unlockFD", "lock discipline of DeleteRecord/SubstituteRecord/doAddRecommendSmartMerge (regenerated facts: defer order, unlock-before-close)",
                  "descriptor numbers and the other lock users' open/unlock/close (XSys, unlockNum), fallback writers of AppendRecord's callers (bread/bstore; followed by the schedule-level model when the source has one)",
-                 "ptt.WriteFile -> writeHeaderAuthorBoard -> AppendRecord(.post) (hdr cases, model runHdr)"],
+                 "ptt.WriteFile -> writeHeaderAuthorBoard -> AppendRecord(.post) (hdr cases, model runHdr)",
+                 "the index a request reports for its append (reportSlot: the returned index vs the file length read after the unlock; regenerated fact appendIndex); ptt.NewPost -> DoPostArticle -> AppendRecord(board .DIR) (posts op, judged by the property oracle)"],
     "assumptions": ["file length is a multiple of the record size; a failed write adds no whole record"],
 }
